@@ -206,7 +206,8 @@ def run_sac(sc):
              dict(comps=["policy", "alpha"], counter="step", mod=pd, rem=0, after=warm),
              dict(comps=["q_target"], counter="step", mod=tnd, rem=0, after=warm)]
     # ulpk=2: the mean is tanh-scaled into the box; the sampler itself has no clip (policy_head.py GaussianTanhPolicy.sample)
-    cfg = base_cfg("sac", sc, warmlearn=warm, warmact=warm, explore_only_in_warmup=True, policy_probe=True, ret_applicable=True, ulpk=2,
+    # coordinator: C10 names DDPG / TD3 / TD3+LAP / TD7 / MR.Q / PETS only - SAC's unclipped Gaussian sample is outside its scope
+    cfg = base_cfg("sac", sc, warmlearn=warm, warmact=warm, explore_only_in_warmup=True, policy_probe=True, ret_applicable=True, ulpk=2, check_bounds=False,
                    trained=["policy", "q", "alpha"], targets=["q_target"], segment="add", rules=rules)
     ret = None if res is None else res.global_step
     return finish(rec, "sac", sc, cfg, returned=ret, final=final_digests(policy=policy, q=q, q_target=qtgt, alpha=ent._alpha), error=_close(w, err))
